@@ -715,5 +715,34 @@ func builtinPrograms() []*Program {
 			"tool/v1/tool.j5s":           j5s("package tool.v1", "", "object Tool {", "  field request object:j5.list.v1.PageRequest", "  field state object:j5.state.v1.StateMetadata", "}"),
 		},
 	})
+
+	// 20. hand-written protos whose elements carry several custom options that come from DIFFERENT
+	// extension files and have the same index in their files ((j5.ext.v1.psm), (j5.list.v1.message)
+	// and (buf.validate.message) are all the first extension of their file): an order that falls
+	// back to the index has ties there.
+	out = append(out, &Program{
+		Name:     "builtin/option_index_ties",
+		Packages: []string{"hand.v1"},
+		Files: map[string]string{
+			"hand/v1/hand.proto": pf("hand.v1", []string{`import "buf/validate/validate.proto";`, `import "j5/ext/v1/annotations.proto";`, `import "j5/list/v1/annotations.proto";`},
+				"message Hand {", `  option (j5.ext.v1.psm) = {entity_name: "hand"};`, "  option (j5.list.v1.message) = {};", "  option (buf.validate.message) = {disabled: true};", "  string name = 1;", "}", "",
+				"message Other {", "  option (buf.validate.message) = {disabled: true};", `  option (j5.ext.v1.psm) = {entity_name: "other"};`, "  string title = 1 [(buf.validate.field).string.min_len = 1, (j5.ext.v1.field).string = {}, (j5.list.v1.field).string.open_text.searching.searchable = true];", "}"),
+			"hand/v1/user.j5s": j5s("package hand.v1", "", "object User {", "  field hand object:Hand", "  field other object:Other", "}"),
+		},
+	})
+
+	// 21. sources with CRLF line endings (a checkout on another platform): one j5s file and one
+	// hand-written proto of a two-package bundle.
+	crlf := func(src string) string { return strings.ReplaceAll(src, "\n", "\r\n") }
+	out = append(out, &Program{
+		Name:     "builtin/crlf_sources",
+		Packages: []string{"acct.v1", "bank.v1"},
+		Files: map[string]string{
+			"acct/v1/account.j5s":  crlf(j5s("package acct.v1", "", "object Account {", "  | An account.", "  | Second line.", "", "  field accountId key:uuid", "  field balance integer:INT64", "}", "", "enum Kind {", "  option CHECKING", "  option SAVINGS", "}")),
+			"acct/v1/owner.j5s":    j5s("package acct.v1", "", "object Owner {", "  field name string", "  field account object:Account", "}"),
+			"acct/v1/legacy.proto": crlf(pf("acct.v1", nil, "// An old message.", "message Legacy {", "  string code = 1;", "}")),
+			"bank/v1/bank.j5s":     j5s("package bank.v1", "import acct.v1", "", "object Bank {", "  field accounts array:object:acct.v1.Account", "  field kind enum:acct.v1.Kind", "  field legacy object:acct.v1.Legacy", "}"),
+		},
+	})
 	return out
 }
